@@ -28,7 +28,8 @@ ASSUMPTIONS = [
     "loopback TCP delivers the accepted bytes to the peer unchanged and in order (the peer socket is the harness' observer)",
     "a socket whose accepted bytes were all read by the peer is reported writable by poll (used only to decide that a missing send attempt is a violation)",
 ]
-TRUSTED = ["std::queue/std::string::erase semantics (modelled, not verified)",
+TRUSTED = ["tools/cxx2lean_eff.py stage 4 (DESIGN.md 0.7.3): the async send queue over Gen.QueueWorld (operations recognised by canonical callee text + argument patterns + provenance of the structured binding), try/catch as M.tryCatch (system_error is-a runtime_error), lock_guard as lock/unlock calls on normal exits only; Model/GenQueueWorld.lean reads the queue models as that interface; dispatch chain: poll bit values from the macro expansion, branches recognised by exact statement text",
+           "std::queue/std::string::erase semantics (modelled, not verified)",
            "the deterministic-scheduler exploration of DESIGN.md 4.3 is replaced by real-thread runs (property only) - the interleaving coverage of the "
            "correspondence is therefore the sequential one; all interleavings are covered by the theorems",
            "the transcript parser of Drive/C02.lean (lines -> typed observations AsyncQ.Obs; the predicate itself is Spec/C02.lean and is "
